@@ -631,6 +631,11 @@ func (l *live) lookup() {
 		h, err := st.LookupSecret(ctx, n)
 		l.tasksBusy--
 		if err == nil && h != nil && gen == l.generation {
+			// C13: a lookup that installed a value rewrites the cache
+			l.absorbLocked()
+			if _, ok := l.prevDoc[n]; !ok {
+				l.fail("doc-complete", "LookupSecret(%q) succeeded but the cache was not rewritten to hold it (last document: %v)", n, SortedKeys(l.prevDoc))
+			}
 			l.handles[n] = h
 			l.pin(n)
 			if _, ok := l.lastRead[n]; !ok {
@@ -1013,10 +1018,25 @@ func (l *live) close() {
 	w.Store = nil
 	w.Tracef("Close")
 	l.tasksBusy++
+	mark := w.Stamp()
 	w.Spawn("close", func(*kernel.Task) {
 		st.Close()
 		l.tasksBusy--
 		w.Tracef("Close returned")
+		// C13: when the poller shuts down the cache is rewritten, complete
+		l.absorbLocked()
+		before := l.snapshotKnown()
+		w.Cache.mu.Lock()
+		n := len(w.Cache.Writes)
+		var last CacheWrite
+		if n > 0 {
+			last = w.Cache.Writes[n-1]
+		}
+		w.Cache.mu.Unlock()
+		if n == 0 || last.Stamp < mark {
+			l.fail("doc-complete", "Close returned but the cache was not rewritten when the poller shut down (known: %v)", SortedKeys(before))
+		}
+		w.S.Probe("shutdown-doc")
 	})
 }
 
